@@ -5,6 +5,10 @@
 import SSEPyVerif.Model.Basic
 namespace SSEPy
 
+/-- CPython's clamping of an explicit slice bound: negative values count from the end -/
+def clampIdx (v n lower upper : Int) : Int :=
+  if v < 0 then max (v + n) lower else min v upper
+
 /-- `slice(start, stop, step).indices(len)`; `none` stands for Python's `None`. -/
 def sliceIndices (start stop step : Option Int) (len : Nat) : Except Err (Int × Int × Int) :=
   let step := step.getD 1
@@ -12,14 +16,12 @@ def sliceIndices (start stop step : Option Int) (len : Nat) : Except Err (Int ×
   let n : Int := len
   let lower : Int := if step < 0 then -1 else 0
   let upper : Int := if step < 0 then n - 1 else n
-  let clamp (v : Int) : Int :=
-    if v < 0 then max (v + n) lower else min v upper
   let s := match start with
     | none => if step < 0 then upper else lower
-    | some v => clamp v
+    | some v => clampIdx v n lower upper
   let e := match stop with
     | none => if step < 0 then lower else upper
-    | some v => clamp v
+    | some v => clampIdx v n lower upper
   .ok (s, e, step)
 
 /-- number of elements of `range(start, stop, step)`, `step ≠ 0`. -/
